@@ -247,6 +247,109 @@ def _literal_occurrences(m: M.Model, rec: M.CallRec, stmts: T.Sequence[M.Stmt], 
     return out
 
 
+# ---- classifiers for the known findings about source lists reached through an indirection ---------------------
+# Each answers "is THIS the listed mechanism?" from the pre-state tree and the produced text; anything else that goes
+# wrong on such a project keeps the generic key of the failing oracle.
+
+def _lost_dataflow(before: M.Model, after: M.Model, nodes: T.Sequence[T.Any], allowed: T.Sequence[M.Stmt]) -> T.Optional[str]:
+    """A call other than the addressed one changed.  Known: the variable the rewriter edited flows into that call ONLY
+    through the value branches of a ternary / only through a foreach loop (the rewriter's dataflow graph has no such
+    edges, so it believes that the list is not shared)."""
+    edited = {s.var for s in allowed if s.var and not M.ceq(before.variables.get(s.var), after.variables.get(s.var))}
+    if not edited or edited & M.reach_names(before, nodes, ternary=False, foreach=False):
+        return None
+    if edited & M.reach_names(before, nodes, ternary=True, foreach=False):
+        return 'dataflow-not-followed-through-ternary'
+    if edited & M.reach_names(before, nodes, ternary=False, foreach=True):
+        return 'dataflow-not-followed-through-foreach'
+    return None
+
+
+def _literal_reach(m: M.Model, rec: M.CallRec, what: str, files: T.Set[str], ternary: bool, foreach: bool) -> bool:
+    """Are all `files` written as string literals somewhere data flows from into the addressed source argument?"""
+    nodes = M.source_nodes(rec, what)
+    names = M.reach_names(m, nodes, ternary=ternary, foreach=foreach)
+    roots: T.List[T.Any] = list(nodes)
+    for sts in m.stmts.values():
+        for s in sts:
+            if s.var in names:
+                roots.append(s.node.a[1])
+            elif s.call is not None and s.call.a[0] == 'set_variable':
+                roots.append(s.call)
+    seen = {os.path.normpath(os.path.join(rec.subdir, n.a[0])) for r_ in roots for n in M._walk_flow(r_, ternary) if n.kind == 'str'}
+    return files <= seen
+
+
+def _unfound_behind_lost_dataflow(m: M.Model, rec: M.CallRec, what: str, left: T.Set[str]) -> T.Optional[str]:
+    """`rm` answered "Unable to find" for files the reference sees in the target.  Known: they are written where the data
+    reaches the target only through a ternary / a foreach loop."""
+    if not left or _literal_reach(m, rec, what, left, False, False):
+        return None
+    if _literal_reach(m, rec, what, left, True, False):
+        return 'dataflow-not-followed-through-ternary'
+    if _literal_reach(m, rec, what, left, False, True):
+        return 'dataflow-not-followed-through-foreach'
+    return None
+
+
+def _getvar_arguments_grew(before: M.Model, after: M.Model, requested: T.Sequence[str]) -> bool:
+    """A requested file is now written among the ARGUMENTS of a get_variable() call (anywhere in the project: the
+    after-state may not even evaluate -- two files make it a call with three arguments)."""
+    base = {os.path.basename(x) for x in requested}
+
+    def count(m: M.Model) -> int:
+        n = 0
+        for sts in m.stmts.values():
+            for s in sts:
+                for x in M.walk(s.node):
+                    if x.kind == 'call' and x.a[0] == 'get_variable':
+                        # (the rewriter sorts the arguments it touched: the file may even end up in FRONT of the variable name)
+                        n += sum(1 for y in x.a[1] if y.kind == 'str' and os.path.basename(y.a[0]) in base)
+        return n
+    return count(after) > count(before)
+
+
+def _misplaced_add(before: M.Model, after: M.Model, rec: M.CallRec, rec2: M.CallRec, allowed: T.Sequence[M.Stmt],
+                   what: str, requested: T.Sequence[str]) -> T.Optional[str]:
+    """`add` changed the text, but the target did not get the file.  Known places where it lands instead:
+    the argument list of a get_variable() call, and an array / dict literal of which the target reads ONE element
+    through an index expression (the file lands in the container or in another element of it)."""
+    base = {os.path.basename(x) for x in requested}
+    if _getvar_arguments_grew(before, after, requested):
+        return 'add-appended-to-get-variable-arguments'
+    # variables that are read ONLY as the object of an index expression
+    indexed: T.Set[str] = set()
+    plain: T.Set[str] = set()
+
+    def scan(n: T.Any) -> None:
+        if isinstance(n, R.Node):
+            if n.kind == 'index' and n.a[0].kind == 'id':
+                indexed.add(n.a[0].a[0])
+                scan(n.a[1])
+                return
+            if n.kind == 'id':
+                plain.add(n.a[0])
+            elif n.kind == 'call' and n.a[0] == 'get_variable' and n.a[1] and n.a[1][0].kind == 'str':
+                plain.add(n.a[1][0].a[0])
+            for x in n.a:
+                scan(x)
+        elif isinstance(n, (tuple, list)):
+            for x in n:
+                scan(x)
+    scan(M.source_nodes(rec, what))
+    for s in allowed:
+        if s.var:
+            scan(s.node.a[1])
+
+    def hits(m: M.Model, var: str) -> int:
+        return sum(1 for sts in m.stmts.values() for s in sts if s.var == var and s.node.a[1].kind in ('array', 'dict')
+                   for y in M.walk(s.node.a[1]) if y.kind == 'str' and os.path.basename(y.a[0]) in base)
+    for v in sorted(indexed - plain):
+        if hits(after, v) > hits(before, v):
+            return 'add-lands-in-container-read-through-index'
+    return None
+
+
 def _norm_defopt(x: T.Any) -> T.Any:
     if isinstance(x, str) and '=' in x:
         k, v = x.split('=', 1)
@@ -396,7 +499,10 @@ def judge(before: M.Model, new_files: T.Dict[str, str], cmd: dict, via: str, res
             return st
     st.count('oracle:after-state-evaluates')
     if after.error is not None:
-        st.failed('evaluate', 'after-state-does-not-evaluate', witness({'reference_error': str(after.error)}), expl())
+        direct_ev = None
+        if typ == 'target' and op in ('src_add', 'extra_files_add') and _getvar_arguments_grew(before, after, cmd.get('sources', [])):
+            direct_ev = 'add-appended-to-get-variable-arguments'
+        st.failed('evaluate', 'after-state-does-not-evaluate', witness({'reference_error': str(after.error)}), expl(), direct_ev)
         return st
 
     # ---- (c) textual locality --------------------------------------------------------------------
@@ -449,7 +555,15 @@ def judge(before: M.Model, new_files: T.Dict[str, str], cmd: dict, via: str, res
             return st
         d = _others_equal(c, c2, set())
         if d is not None:
-            st.failed('other-call', 'other-call-changed', witness({'call': c.brief(), 'difference': d}), expl())
+            # the argument that changed (a known-finding classification looks at the data flowing into THAT argument)
+            arg = str(d['arg'])
+            argn: T.Optional[R.Node] = None
+            if arg.startswith('positional ') and arg[11:].isdigit() and int(arg[11:]) < len(c.posn):
+                argn = c.posn[int(arg[11:])]
+            elif arg not in ('positional count', 'keyword order'):
+                argn = _node_of(c, arg)
+            st.failed('other-call', 'other-call-changed', witness({'call': c.brief(), 'difference': d}), expl(),
+                      _lost_dataflow(before, after, [argn], allowed) if argn is not None else None)
             return st
     extra_keys = [k for k in ka if k not in kb]
     if op == 'target_add':
@@ -468,10 +582,16 @@ def judge(before: M.Model, new_files: T.Dict[str, str], cmd: dict, via: str, res
     # variables: everything not assigned in an allowed statement keeps its value
     skipvars = {s.var for s in allowed if s.var}
     st.count('oracle:variables-unchanged')
+    edited_vars = {v for v in skipvars if v in after.variables and not M.ceq(before.variables.get(v), after.variables[v])}
     for name, val in before.variables.items():
         if name in skipvars:
             continue
         if name not in after.variables or not M.ceq(val, after.variables[name]):
+            if name in after.variables and edited_vars & M.reach_names(before, [R.Node('id', 0, 0, name)], ternary=True, foreach=True):
+                # a variable computed FROM the list the command had to edit (`al = srcs`, left behind by a removed
+                # target, say): it follows the list.  Every call was already found unchanged above.
+                st.count('oracle:variable-downstream-of-the-edited-list')
+                continue
             st.failed('other-call', 'variable-changed', witness({'variable': name, 'before': val,
                                                                  'after': after.variables.get(name, '<missing>')}), expl())
             return st
@@ -556,6 +676,10 @@ def judge(before: M.Model, new_files: T.Dict[str, str], cmd: dict, via: str, res
                                    for n in M.walk(s.node))]
                 if left and holders:
                     direct = 'rm-array-reaching-target-by-two-paths-not-found'
+                else:
+                    direct = _unfound_behind_lost_dataflow(before, rec, what, left)
+            if direct is None and op in ('src_add', 'extra_files_add') and changed and not (want - sb) <= sa:
+                direct = _misplaced_add(before, after, rec, rec2, allowed, what, cmd.get('sources', []))
             if direct is None and op in ('src_rm', 'extra_files_rm') and shared_refusal and sa - exp <= want and exp <= sa \
                     and len(la) <= len(lb):
                 st.outcome = 'refused:documented'
@@ -1150,9 +1274,81 @@ def probes() -> T.List[T.Tuple]:
     return P
 
 
-def run_probes(root: str) -> dict:
+# how a SECOND target may receive a source list that another target uses by its plain name:
+# form -> (statements in front of the second target, the expression it passes as sources)
+SHARED_FORMS: T.Dict[str, T.Tuple[str, str]] = {
+    'plain': ("", "common"),
+    'get-variable': ("", "get_variable('common')"),
+    'get-variable-into-variable': ("mid = get_variable('com' + 'mon')\n", "mid"),
+    'alias': ("al = common\n", "al"),
+    'alias-of-alias': ("al = common\nal2 = al\n", "al2"),
+    'plus-literal': ("", "common + ['t1.c']"),
+    'plus-variables': ("more = ['m.c']\n", "more + common"),
+    'array-element': ("", "['t1.c', common]"),
+    'dict-value': ("d = {'k' : common, 'other' : ['o.c']}\n", "d['k']"),
+    'array-index': ("arr = [common]\n", "arr[0]"),
+    'files-argument': ("", "files(common)"),
+    'set-variable': ("set_variable('sv', common)\n", "sv"),
+    'plus-assign': ("acc2 = ['t1.c']\nacc2 += common\n", "acc2"),
+    'ternary': ("", "true ? common : []"),
+    'foreach': ("acc = []\nforeach x : common\n  acc += x\nendforeach\n", "acc"),
+}
+
+
+def shared_probes(part: int, parts: int) -> T.List[T.Tuple]:
+    """Source lists SHARED by two targets where the second one reaches the list through an indirection; every command
+    addresses ONE of the two targets: the other target's sources (reference view before/after, and `info`) must not
+    change, or the command must refuse.  Same tuple format as probes()."""
+    P: T.List[T.Tuple] = []
+
+    def tcmd(t: str, opn: str, *files: str) -> dict:
+        return {'type': 'target', 'target': t, 'operation': opn, 'sources': list(files)}
+    variants: T.List[T.Tuple[str, str, str, str, bool]] = []
+    for i, form in enumerate(SHARED_FORMS):
+        variants.append((form, "['common.c']", 'plus' if i % 2 == 0 else 'pos', 'app-first' if (i // 2) % 2 == 0 else 'tool-first', False))
+    # the shared list as a files() object, and the second target in a subdirectory
+    variants.append(('get-variable', "files('common.c')", 'pos', 'app-first', False))
+    variants.append(('alias', "files('common.c')", 'plus', 'tool-first', False))
+    variants.append(('get-variable', "files('common.c')", 'plus', 'app-first', True))
+    variants.append(('plus-variables', "files('common.c')", 'pos', 'app-first', True))
+    for j, (form, shared, appform, order, in_sub) in enumerate(variants):
+        if j % parts != part:
+            continue
+        pre, expr = SHARED_FORMS[form]
+        if form == 'files-argument' and shared.startswith('files'):
+            continue
+        app = ("app = executable('app', common + ['app.c'], install : true)\n" if appform == 'plus'
+               else "app = executable('app', common, 'app.c', install : true)\n")
+        tool = pre + f"tool = executable('tool', {expr}, 'tool.c', c_args : ['-DWHO=\"tool\\'s\"'])\n"
+        head = f"project('p')\ncommon = {shared}\n"
+        if in_sub:
+            files = {'meson.build': head + app + "subdir('sub')\n", 'sub/meson.build': tool}
+            tdir = 'sub/'
+        else:
+            files = {'meson.build': head + (app + tool if order == 'app-first' else tool + app) + "last = 1\n"}
+            tdir = ''
+        tag = f'shared:{form}:{"files" if shared.startswith("files") else "strings"}:{appform}:{order}' + (':subdir' if in_sub else '')
+        for seq, cmds in (('add-plain-user', [tcmd('app', 'src_add', 'new.c'), tcmd('tool', 'info')]),
+                          ('rm-plain-user', [tcmd('app', 'src_rm', 'common.c'), tcmd('tool', 'info')]),
+                          ('add-indirect-user', [tcmd('tool', 'src_add', tdir + 'new.c'), tcmd('app', 'info')]),
+                          ('rm-indirect-user', [tcmd('tool', 'src_rm', 'common.c')])):
+            P.append((f'{tag}:{seq}', files, cmds, 'cli' if (j + len(seq)) % 2 else 'json', False))
+    return P
+
+
+def run_probes(root: str, which: T.Optional[T.Tuple[int, int]] = None) -> dict:
     out: T.Dict[str, T.Any] = {'counts': {}, 'violations': [], 'samples': [], 'cases': [], 'notes': []}
     rng = random.Random(1)
+    if which is not None:
+        for name, files, cmds, via, inside in shared_probes(*which):
+            o = run_sequence(root, 'sprobe_' + re.sub(r'\W', '_', name), files, [], rng, cmds, 3, inside, force_via=via, do_batch=False)
+            for v in o['violations']:
+                v['probe'] = name
+            merge(out, o)
+            out['counts']['probes:shared-through-indirection'] = out['counts'].get('probes:shared-through-indirection', 0) + 1
+            k = 'shared-probe:' + name.split(':')[1]
+            out['counts'][k] = out['counts'].get(k, 0) + 1
+        return out
     for name, files, cmds, via, inside, *rest in probes():
         o = run_sequence(root, 'probe_' + re.sub(r'\W', '_', name), files, [], rng, cmds, 3, inside, force_via=via,
                          configs=rest[0] if rest else None)
@@ -1165,6 +1361,9 @@ def run_probes(root: str) -> dict:
 
 def probe_worker(root: str) -> dict:
     return run_probes(root)
+
+
+SHARED_PROBE_PARTS = 3
 
 
 # ------------------------------------------------------------------------------------------------
@@ -1205,7 +1404,8 @@ def main() -> int:
     jobs = [(root, chk.seed, i, nseq, 3, deadline) for i in range(nproj)]
     agg: T.Dict[str, T.Any] = {'counts': {}, 'violations': [], 'samples': [], 'cases': [], 'notes': []}
     feats: T.Dict[str, int] = {}
-    results = common.pmap(_dispatch, [('probes', root)] + [('job', j) for j in jobs], chk.jobs)
+    results = common.pmap(_dispatch, [('probes', root)] + [('shared-probes', (root, k, SHARED_PROBE_PARTS)) for k in range(SHARED_PROBE_PARTS)]
+                          + [('job', j) for j in jobs], chk.jobs)
     for o in results:
         merge(agg, o)
         for f in o.get('features', []):
@@ -1229,7 +1429,8 @@ def main() -> int:
                  'oracle:other-calls-unchanged', 'oracle:other-args-unchanged', 'oracle:variables-unchanged',
                  'oracle:info', 'oracle:kwargs-info', 'oracle:batch-equals-stepwise', 'oracle:value:src_add', 'oracle:value:src_rm',
                  'oracle:value:kwargs:set', 'oracle:value:kwargs:delete', 'oracle:value:default_options:set',
-                 'oracle:roundtrip:add-then-rm', 'oracle:roundtrip:rm-then-add', 'oracle:roundtrip-end-state', 'probes'):
+                 'oracle:roundtrip:add-then-rm', 'oracle:roundtrip:rm-then-add', 'oracle:roundtrip-end-state', 'probes',
+                 'probes:shared-through-indirection'):
         chk.require(name, 1)
     chk.require('outcome:applied', 50 if quick else 1000)
     if agg['counts'].get('harness-error', 0):
@@ -1250,6 +1451,8 @@ def _dispatch(item: T.Tuple[str, T.Any]) -> dict:
     kind, arg = item
     if kind == 'probes':
         return probe_worker(arg)
+    if kind == 'shared-probes':
+        return run_probes(arg[0], (arg[1], arg[2]))
     return worker(arg)
 
 
